@@ -32,6 +32,7 @@ Ann(c) == AnnClauses(c.nin, c.layers, c.nout, c.pdims, c.neurons, c.outs)
 Range(c) == IF \E k \in 1..Len(c.vals) : ~FInClosed(c.vals[k], c.lo, c.hi)
             THEN {"value-outside-search-interval:" \o c.name} ELSE {}
 Lorenz(c) == IF \E k \in 1..Len(c.evals) : LET e == c.evals[k] IN
+                  \/ \E i \in 1..3 : e.out[i] >= 2000000000    \* the driver's marker: not an integer (TLC evaluates left to right)
                   \/ e.out[1] # 10 * (e.y - e.x)
                   \/ e.out[2] # 28 * e.x - e.y - e.x * e.z + e.c
                   \/ 3 * e.out[3] # 3 * e.x * e.y - 8 * e.z
